@@ -8,7 +8,10 @@ pub mod c03;
 pub mod c04;
 pub mod c05;
 pub mod c06;
+pub mod c07;
+pub mod c08;
 pub mod c09;
+pub mod c11;
 
 pub struct Prop {
     pub id: &'static str,
@@ -25,7 +28,10 @@ pub fn all() -> Vec<Prop> {
         Prop { id: "C04", level: "exploration", run: c04::run, replay: c04::replay },
         Prop { id: "C05", level: "exploration", run: c05::run, replay: c05::replay },
         Prop { id: "C06", level: "exploration", run: c06::run, replay: c06::replay },
+        Prop { id: "C07", level: "exploration", run: c07::run, replay: c07::replay },
+        Prop { id: "C08", level: "exploration", run: c08::run, replay: c08::replay },
         Prop { id: "C09", level: "exploration", run: c09::run, replay: c09::replay },
+        Prop { id: "C11", level: "fault_enumeration", run: c11::run, replay: c11::replay },
     ]
 }
 
